@@ -43,12 +43,24 @@ func (m *minimiser) fails(s *scn.Scenario) (bool, *scn.Result) {
 		return false, nil
 	}
 	for _, v := range r.res.Violations {
-		if v.Sig == m.sig {
+		if sigFamily(v.Sig) == sigFamily(m.sig) {
 			m.last = v
 			return true, r.res
 		}
 	}
 	return false, r.res
+}
+
+// sigFamily: the same observation can go wrong against the in-process reference
+// ("op-resolve"), against the fresh-process reference ("isolated:op-resolve") or
+// against the reverse-order pass ("order:op-resolve"); which of them notices
+// first may differ between executions when the code under test is
+// nondeterministic by itself. They count as the same violation.
+func sigFamily(sig string) string {
+	for _, p := range []string{"isolated:", "order:"} {
+		sig = strings.TrimPrefix(sig, p)
+	}
+	return sig
 }
 
 // usedInputs drops inputs no pipeline refers to and renumbers.
